@@ -2,7 +2,11 @@
 use crate::gen;
 use crate::net::*;
 use crate::util::*;
+use adblock::filters::cosmetic::CosmeticFilter;
 use adblock::filters::network::NetworkFilter;
+use adblock::lists::{parse_filter, parse_filters, read_list_metadata, ExpiresInterval, FilterFormat, FilterListMetadata, FilterParseError, FilterSet, ParseOptions, ParsedFilter, RuleTypes};
+use adblock::resources::PermissionMask;
+use adblock::Engine;
 use serde_json::json;
 
 pub fn option_soup(r: &mut Rng) -> String {
@@ -65,4 +69,488 @@ pub fn run_parse(seed: u64, n: usize, out: &mut Out) {
         out.bump(if imp.starts_with("ERR:") { "rejected" } else { "accepted" });
         out.case(&format!("parse\t{}", hex(&line)), &imp, json!({"line": line, "impl": imp.chars().take(120).collect::<String>()}), !imp.starts_with("ERR:"));
     }
+}
+
+// ---------------------------------------------------------------------------------------------
+// C11 proper: parse_filter (both formats, all rule-type options), lists, metadata, totality
+// ---------------------------------------------------------------------------------------------
+
+const FORMATS: [(char, FilterFormat); 2] = [('S', FilterFormat::Standard), ('H', FilterFormat::Hosts)];
+const RTYPES: [(char, RuleTypes); 3] = [('A', RuleTypes::All), ('N', RuleTypes::NetworkOnly), ('C', RuleTypes::CosmeticOnly)];
+const WS: &[&str] = &[" ", " ", "\t", "  ", "\u{a0}", "\u{3000}", "\u{2003}", "\u{85}", "\r", "\u{b}", "\u{c}", "\u{1680}", "\u{2028}", "\u{202f}", "\u{205f}", "\u{200b}", "\u{feff}"];
+const MB: &[&str] = &["\u{e9}", "\u{20ac}", "\u{1f600}", "\u{a0}", "\u{3000}", "$", "#", "|", ",", "~", "@", "!", "[", "*", "^", "/", "=", ":", "(", ")", "\\", "\"", " ", ".", "+", "\u{130}", "\u{df}"];
+
+fn opts(f: FilterFormat, t: RuleTypes, perm: u8) -> ParseOptions {
+    ParseOptions { format: f, rule_types: t, permissions: PermissionMask::from_bits(perm) }
+}
+
+/// canonical outcome of `parse_filter` for one line
+pub fn show_pline(line: &str, f: FilterFormat, t: RuleTypes) -> Result<String, String> {
+    let ascii = line.is_ascii();
+    let l2 = line.to_string();
+    let res = guarded(move || parse_filter(&l2, false, opts(f, t, 0)))?;
+    Ok(match res {
+        Ok(ParsedFilter::Network(nf)) => if ascii { format!("N:{}", dump_rule(&nf, false)) } else { "NET".into() },
+        Ok(ParsedFilter::Cosmetic(_)) => "C".into(),
+        Err(FilterParseError::Network(e)) => if ascii { format!("E:{:?}", e) } else { "NET".into() },
+        Err(FilterParseError::Cosmetic(_)) => "C".into(),
+        Err(FilterParseError::Unsupported) => "X:Unsupported".into(),
+        Err(FilterParseError::Empty) => "X:Empty".into(),
+    })
+}
+
+fn hosts_line(r: &mut Rng) -> String {
+    let h = match r.below(16) {
+        0 => "localhost".to_string(),
+        1 => format!("www.{}", gen::host(r)),
+        2 => format!("WWW.{}", gen::host(r).to_uppercase()),
+        3 => format!("www.www.{}", gen::host(r)),
+        4 => r.pick(&[".com", "com", "a.", ".a.com", "..", ".", "a..b", "-a.com", "a_b.com", "a/b.com", "a.com/", "a.com:80", "a b.com", "[::1]", "a.com^", "||a.com^", "a.com$script", "*.a.com", "b\u{fc}cher.example", "\u{43f}\u{440}.\u{440}\u{444}", "xn--bcher-kva.example", "B\u{dc}CHER.example", "a\u{a0}b.com", "a,b.com", "www.", "www.com", "wwww.a.com"]).to_string(),
+        5 => gen::host(r).to_uppercase(),
+        _ => gen::host(r),
+    };
+    let ip = r.pick(&["127.0.0.1", "0.0.0.0", "::1", "0", "::", "fe80::1%lo0", "127.0.0.1 extra"]).to_string();
+    let sep = r.pick(WS).to_string();
+    let mut l = match r.below(8) {
+        0 | 1 => h,
+        2 => format!("{}{}{} x", ip, sep, h),
+        _ => format!("{}{}{}", ip, sep, h),
+    };
+    match r.below(10) {
+        0 => l.push_str(" # comment"),
+        1 => l.push_str("#comment"),
+        2 => l = format!("# {}", l),
+        3 => l = format!("!{}", l),
+        4 => l = format!("{}#", l),
+        _ => {}
+    }
+    l
+}
+
+fn special_line(r: &mut Rng) -> String {
+    r.pick(&["! comment", "!", "! Title: x", "[Adblock Plus 2.0]", "[Adblock", "[Adblocker]/x", "[ads]/banner_", "[x", "# comment", "#", "#\tx", "#\u{a0}x", "#\u{3000}", "#x", "##", "###", "##.ad", "#@#.ad", "#?#.ad", "a", "|", "!", "@", "",
+        " ", "\t", "\u{3000}", "$$", "a$$b", "example.org$$script[data-src=\"banner\"]", "a.com#?#x", "a.com#$#x", "a.com#%#x", "a.com#@$#x", "a###x", "a#b#c", "a#1234#", "a#123#", "a#12#", "a#\u{e9}1#", "a#\u{e9}\u{e9}#", "a#\u{20ac}#", "a#\u{20ac}1#", "a#\u{1f600}#", "a#\u{1f600}", "x#",
+        "#a#", "a.com##", "a.com## ", "||a.com^$$", "@@|x", "@@", "@@|", "||", "|x|", "a.com##+js()", "a.com##+js(x", "a.com#@#+js()", "a.com##^script", "a.com##^script:has-text(x)", "*##.x", "~a.com##.x", "a.*##.x", "a.com,b.com#@#.x", "a.com##.x:style()", "a.com##:remove()", "\u{e9}", "\u{a0}a", "a.com## .x", "a.com##.x, .y", "a.com##body > #x:not(.y)", "a.com#!#x", "127.0.0.1 a.com"]).to_string()
+}
+
+fn mutate(r: &mut Rng, s: &str) -> String {
+    let mut cs: Vec<char> = s.chars().collect();
+    for _ in 0..1 + r.below(2) {
+        let n = cs.len();
+        match r.below(6) {
+            0 | 1 => {
+                let ins: Vec<char> = r.pick(MB).chars().collect();
+                let at = r.below(n + 1);
+                for (k, c) in ins.into_iter().enumerate() {
+                    cs.insert(at + k, c);
+                }
+            }
+            2 if n > 0 => {
+                cs.remove(r.below(n));
+            }
+            3 if n > 1 => {
+                let a = r.below(n);
+                let b = a + r.below(n - a);
+                let seg: Vec<char> = cs[a..=b.min(n - 1)].to_vec();
+                let at = r.below(n + 1);
+                for (k, c) in seg.into_iter().enumerate() {
+                    cs.insert(at + k, c);
+                }
+            }
+            4 if n > 0 => {
+                cs.truncate(r.below(n));
+            }
+            _ if n > 1 => {
+                let a = r.below(n);
+                let b = r.below(n);
+                cs.swap(a, b);
+            }
+            _ => {}
+        }
+    }
+    cs.into_iter().filter(|c| *c != '\n').collect()
+}
+
+pub fn any_line(r: &mut Rng, scripts: &[String]) -> String {
+    let base = match r.below(12) {
+        0 | 1 => gen::rule(r, &gen::RuleOpts { extra: true, full_regex: true }),
+        2 => {
+            let p = pattern_soup(r);
+            if r.pct(60) { format!("{}${}", p, option_soup(r)) } else { p }
+        }
+        3 | 4 => crate::cosm::gen_rule(r, scripts),
+        5 | 6 => hosts_line(r),
+        7 | 8 => special_line(r),
+        9 => format!("{}{}", r.pick(&["[", "[x]", "!", "#", "# ", "@@", "@@|", "|", "$", "$$", "~", "+", "a#", "a##", "\u{e9}"]), gen::rule(r, &gen::RuleOpts { extra: false, full_regex: false })),
+        _ => gen::host(r),
+    };
+    let base = if r.pct(25) { mutate(r, &base) } else { base };
+    let base: String = base.chars().filter(|c| *c != '\n').collect();
+    match r.below(8) {
+        0 => format!("{}{}", r.pick(WS), base),
+        1 => format!("{}{}", base, r.pick(WS)),
+        2 => format!("{}{}{}", r.pick(WS), base, r.pick(WS)),
+        _ => base,
+    }
+}
+
+fn run_lines(seed: u64, n: usize, out: &mut Out) {
+    let mut r = Rng::new(seed ^ 0x1111);
+    let scripts = crate::cosm::script_pool();
+    for _ in 0..n {
+        let line = any_line(&mut r, &scripts);
+        let (fc, f) = FORMATS[if r.pct(35) { 1 } else { 0 }];
+        let (tc, t) = RTYPES[r.below(3)];
+        let imp = match show_pline(&line, f, t) {
+            Ok(s) => s,
+            Err(p) => {
+                out.fail("parse-panicked", None, json!({"api": "parse_filter", "line": line, "format": fc.to_string(), "rule_types": tc.to_string(), "panic": p}));
+                "PANIC".to_string()
+            }
+        };
+        let kind = imp.split(':').next().unwrap_or("").to_string();
+        out.bump(&format!("pline:{}{}:{}", fc, tc, kind));
+        out.case(&format!("pline\t{}\t{}\t{}", fc, tc, hex(&line)), &imp, json!({"line": line, "format": fc.to_string(), "rule_types": tc.to_string(), "impl": imp.chars().take(100).collect::<String>()}), kind == "N" || kind == "C" || kind == "NET");
+    }
+}
+
+fn show_meta(m: &FilterListMetadata) -> String {
+    let e = match &m.expires {
+        None => "-".to_string(),
+        Some(ExpiresInterval::Hours(h)) => format!("H{}", h),
+        Some(ExpiresInterval::Days(d)) => format!("D{}", d),
+    };
+    format!("{};{};{};{}", opt_hex(m.homepage.as_deref()), opt_hex(m.title.as_deref()), e, opt_hex(m.redirect.as_deref()))
+}
+
+fn header_line(r: &mut Rng) -> String {
+    let amounts = ["5", "1", "0", "14", "15", "336", "337", "05", "+5", "-1", "", "256", "65535", "65536", "99999999999", "5.5", "\u{663}", "1e1", " 5", "4 "];
+    let units = ["days", "day", "hours", "hour", "Days", "weeks", "", "days (update frequency)", "hours,", "d"];
+    match r.below(14) {
+        0 | 1 => format!("! Expires: {} {}", r.pick(&amounts), r.pick(&units)),
+        2 => format!("! Expires: {}{}", r.pick(&amounts), r.pick(&units)),
+        3 => format!("! Title: {}", r.pick(&["Foo", "Bar list", "a: b", "", " x", "\u{e9}t\u{e9}", "x\r"])),
+        4 => format!("! Homepage: {}", r.pick(&["http://x.example", "https://y.example/list", ""])),
+        5 => format!("! Redirect: {}", r.pick(&["http://r.example/l.txt", "x"])),
+        6 => r.pick(&["!Title: x", "! Title:x", "!  Title: x", "! title: x", "! Title : x", "!", "! ", "! :", "! : ", "! Title", "! Version: 1", "! Last modified: 1 Jan", "!\tTitle: x", "! Expires: 2 days: 3 days", "! Title: first", "! Title: second"]).to_string(),
+        7 => r.pick(&["[Adblock Plus 2.0]", "[uBlock Origin]", "[", "[Adblock Plus 2.0]\r"]).to_string(),
+        8 => r.pick(&["", " ", "\r", "||rule.example^", "a.com##.x", "127.0.0.1 h.example", "#comment", " ! Title: indented"]).to_string(),
+        9 => format!("! {}", "\u{e9}".repeat(r.below(40))),
+        10 => format!("! {}", "pad ".repeat(r.below(120))),
+        _ => format!("! Expires: {} days", 1 + r.below(20)),
+    }
+}
+
+fn run_meta(seed: u64, n: usize, out: &mut Out) {
+    let mut r = Rng::new(seed ^ 0x2222);
+    for k in 0..n {
+        let nl = 1 + r.below(8);
+        let mut text = String::new();
+        if k % 5 == 0 {
+            // make the 1024-byte cut-off fall inside / next to a multi-byte character and inside a metadata line
+            let pad = 1024 - 12 - r.below(8);
+            text.push_str("! ");
+            text.push_str(&"x".repeat(pad.saturating_sub(2 + 1 + r.below(30))));
+            text.push('\n');
+            text.push_str(&format!("! Title: {}{}\n", r.pick(&["ab", "\u{e9}\u{e9}\u{e9}\u{e9}", "\u{20ac}\u{20ac}\u{20ac}", "\u{1f600}\u{1f600}", "a\u{1f600}b\u{20ac}"]), "z".repeat(r.below(6))));
+        }
+        for i in 0..nl {
+            text.push_str(&header_line(&mut r));
+            if i + 1 < nl || r.pct(70) {
+                text.push_str(r.pick(&["\n", "\n", "\n", "\r\n", "\n\n", "\r"]));
+            }
+        }
+        let t2 = text.clone();
+        match guarded(move || show_meta(&read_list_metadata(&t2))) {
+            Ok(imp) => {
+                let nt = imp != "-;-;-;-";
+                out.case(&format!("meta\t{}", hex(&text)), &imp, json!({"api": "read_list_metadata", "text": text, "impl": imp}), nt);
+            }
+            Err(p) => out.fail("parse-panicked", None, json!({"api": "read_list_metadata", "text": text, "panic": p})),
+        }
+        let t3 = text.clone();
+        match guarded(move || {
+            let mut fs = FilterSet::new(false);
+            show_meta(&fs.add_filter_list(&t3, Default::default()))
+        }) {
+            Ok(imp) => {
+                let nt = imp != "-;-;-;-";
+                out.case(&format!("lmeta\t{}", hex(&text)), &imp, json!({"api": "add_filter_list metadata", "text": text, "impl": imp}), nt);
+            }
+            Err(p) => out.fail("parse-panicked", None, json!({"api": "add_filter_list", "text": text, "panic": p})),
+        }
+    }
+}
+
+fn dump_parsed(net: &[NetworkFilter], cos: &[CosmeticFilter]) -> Vec<String> {
+    let mut v: Vec<String> = net.iter().map(|f| format!("N:{}", dump_rule(f, false))).collect();
+    v.extend(cos.iter().map(|f| format!("C:{}", crate::cosm::dump_crule(f))));
+    v
+}
+
+fn engine_bytes(text: &str, o: ParseOptions, optimize: bool) -> Option<Vec<u8>> {
+    let mut fs = FilterSet::new(false);
+    fs.add_filter_list(text, o);
+    Engine::from_filter_set(fs, optimize).serialize_raw().ok()
+}
+
+/// list-level oracle: cross-line independence, rule-type options, hosts = `||host^`
+fn run_lists(seed: u64, n: usize, out: &mut Out) {
+    let mut r = Rng::new(seed ^ 0x3333);
+    let scripts = crate::cosm::script_pool();
+    for _ in 0..n {
+        let (fc, f) = FORMATS[if r.pct(30) { 1 } else { 0 }];
+        let (tc, t) = RTYPES[if r.pct(60) { 0 } else { r.below(3) }];
+        let perm = *r.pick(&[&0u8, &0u8, &1u8, &255u8]);
+        let o = opts(f, t, perm);
+        let len = 1 + r.below(14);
+        let lines: Vec<String> = (0..len).map(|_| any_line(&mut r, &scripts)).filter(|l| !l.contains('\r')).collect();
+        let desc = json!({"format": fc.to_string(), "rule_types": tc.to_string(), "permissions": perm, "lines": lines});
+        // per-line outcomes
+        let mut per_line: Vec<String> = vec![];
+        let mut accepted: Vec<String> = vec![];
+        let mut panicked = false;
+        for l in &lines {
+            let l2 = l.clone();
+            match guarded(move || parse_filter(&l2, false, o)) {
+                Ok(Ok(ParsedFilter::Network(nf))) => {
+                    per_line.push(format!("N:{}", dump_rule(&nf, false)));
+                    accepted.push(l.clone());
+                }
+                Ok(Ok(ParsedFilter::Cosmetic(cf))) => {
+                    per_line.push(format!("C:{}", crate::cosm::dump_crule(&cf)));
+                    accepted.push(l.clone());
+                }
+                Ok(Err(_)) => {}
+                Err(p) => {
+                    panicked = true;
+                    out.fail("parse-panicked", None, json!({"api": "parse_filter", "line": l, "case": desc, "panic": p}));
+                }
+            }
+        }
+        if panicked {
+            continue;
+        }
+        let rejected = lines.len() - accepted.len();
+        out.add("list_lines", lines.len() as u64);
+        out.add("list_lines_rejected", rejected as u64);
+        // (1) the list parser returns exactly the per-line results, network rules first then cosmetic, in order
+        let ls = lines.clone();
+        let whole = match guarded(move || parse_filters(&ls, false, o)) {
+            Ok((nf, cf)) => dump_parsed(&nf, &cf),
+            Err(p) => {
+                out.fail("parse-panicked", None, json!({"api": "parse_filters", "case": desc, "panic": p}));
+                continue;
+            }
+        };
+        let mut expect: Vec<String> = per_line.iter().filter(|x| x.starts_with("N:")).cloned().collect();
+        expect.extend(per_line.iter().filter(|x| x.starts_with("C:")).cloned());
+        if whole != expect {
+            out.fail("list-differs-from-its-lines", None, json!({"case": desc, "list_result": whole, "line_by_line": expect}));
+        }
+        // (2) engine(list) == engine(list without the rejected lines), through the text API
+        let optimize = r.pct(50);
+        let text_all = lines.join("\n");
+        let text_acc = accepted.join("\n");
+        let (ta, tb) = (text_all.clone(), text_acc.clone());
+        match (guarded(move || engine_bytes(&ta, o, optimize)), guarded(move || engine_bytes(&tb, o, optimize))) {
+            (Ok(a), Ok(b)) => {
+                if a != b {
+                    out.fail("engine-changes-when-rejected-lines-are-deleted", None, json!({"case": desc, "accepted_lines": accepted, "optimize": optimize}));
+                }
+            }
+            (Err(p), _) | (_, Err(p)) => {
+                out.fail("parse-panicked", None, json!({"api": "add_filter_list/from_filter_set", "case": desc, "panic": p}));
+                continue;
+            }
+        }
+        // (3) rule-type options load nothing of the other kind and the same rules of their own kind
+        let kinds_n = whole.iter().filter(|x| x.starts_with("N:")).count();
+        let kinds_c = whole.len() - kinds_n;
+        match t {
+            RuleTypes::NetworkOnly if kinds_c > 0 => out.fail("network-only-loaded-a-cosmetic-rule", None, desc.clone()),
+            RuleTypes::CosmeticOnly if kinds_n > 0 => out.fail("cosmetic-only-loaded-a-network-rule", None, desc.clone()),
+            _ => {}
+        }
+        if let FilterFormat::Hosts = f {
+            if kinds_c > 0 {
+                out.fail("hosts-list-loaded-a-cosmetic-rule", None, desc.clone());
+            }
+        }
+        if let RuleTypes::All = t {
+            let ls = lines.clone();
+            let ls2 = lines.clone();
+            let only_n = guarded(move || parse_filters(&ls, false, opts(f, RuleTypes::NetworkOnly, perm))).map(|(a, b)| dump_parsed(&a, &b));
+            let only_c = guarded(move || parse_filters(&ls2, false, opts(f, RuleTypes::CosmeticOnly, perm))).map(|(a, b)| dump_parsed(&a, &b));
+            if let (Ok(nn), Ok(cc)) = (only_n, only_c) {
+                let mut both = nn.clone();
+                both.extend(cc.iter().cloned());
+                if both != whole {
+                    out.fail("all-differs-from-network-only-plus-cosmetic-only", None, json!({"case": desc, "all": whole, "network_only": nn, "cosmetic_only": cc}));
+                }
+            }
+        }
+        // (4) hosts entries: the loaded rule is the standard rule `||host^`, and so is the engine
+        if let FilterFormat::Hosts = f {
+            let mut std_lines: Vec<String> = vec![];
+            for l in &accepted {
+                if let Ok(ParsedFilter::Network(nf)) = parse_filter(l, false, o) {
+                    let host = nf.hostname.clone().unwrap_or_default();
+                    let text = format!("||{}^", host);
+                    // independent normalisation for ASCII entries
+                    if l.is_ascii() {
+                        let field = l.split('#').next().unwrap_or("").split_whitespace().last().unwrap_or("").to_ascii_lowercase();
+                        let mut fld = field.as_str();
+                        while let Some(x) = fld.strip_prefix("www.") {
+                            fld = x;
+                        }
+                        if fld != host {
+                            out.fail("hosts-entry-host-differs-from-its-field", None, json!({"line": l, "rule_hostname": host, "expected": fld}));
+                        }
+                    }
+                    match parse_filter(&text, false, opts(FilterFormat::Standard, RuleTypes::All, 0)) {
+                        Ok(ParsedFilter::Network(sf)) => {
+                            if dump_rule(&sf, false) != dump_rule(&nf, false) {
+                                out.fail("hosts-entry-differs-from-standard-rule", None, json!({"line": l, "standard_text": text, "hosts_rule": dump_rule(&nf, false), "standard_rule": dump_rule(&sf, false)}));
+                            }
+                        }
+                        _ => out.fail("hosts-entry-differs-from-standard-rule", None, json!({"line": l, "standard_text": text, "standard": "rejected"})),
+                    }
+                    // behaviour: blocks the host and its subdomains, nothing else
+                    let plain_host = !host.is_empty() && host.chars().all(|c| c.is_ascii_lowercase() || c.is_ascii_digit() || c == '.' || c == '-') && !host.starts_with('.') && !host.starts_with('-') && !host.contains("..");
+                    let mut pr = PRule { line: l.clone(), f: Box::new(nf), rm: Default::default() };
+                    for (u, want) in [(format!("https://{}/x.js", host), true), (format!("http://sub.{}/", host), true), (format!("https://{}.evil.example/", host), false), (format!("https://not{}/", host), false)] {
+                        if !plain_host {
+                            break;
+                        }
+                        if let Some(q) = make_req(&u, "https://page.example/", "script") {
+                            if pr.matches(&q.req) != want {
+                                out.fail("hosts-entry-behaviour", None, json!({"line": l, "url": u, "expected_match": want}));
+                            }
+                        }
+                    }
+                    std_lines.push(text);
+                }
+            }
+            if t.loads_network_rules() {
+                let (ta, tb) = (text_all.clone(), std_lines.join("\n"));
+                let a = guarded(move || engine_bytes(&ta, o, optimize));
+                let b = guarded(move || engine_bytes(&tb, opts(FilterFormat::Standard, RuleTypes::All, 0), optimize));
+                if let (Ok(a), Ok(b)) = (a, b) {
+                    if a != b {
+                        out.fail("hosts-engine-differs-from-standard-engine", None, json!({"case": desc, "standard_lines": std_lines}));
+                    }
+                }
+            }
+            out.add("hosts_entries_accepted", accepted.len() as u64);
+        }
+        out.oracle_case(&format!("list|{}{}{}|{}", fc, tc, perm, lines.join("\n")), &desc, !accepted.is_empty() && rejected > 0);
+    }
+}
+
+/// totality: every API of the family on malformed text, each call under catch_unwind
+fn total_one(s: &str, out: &mut Out) {
+    for (fc, f) in FORMATS {
+        for (tc, t) in RTYPES {
+            for perm in [0u8, 255u8] {
+                let l = s.to_string();
+                if let Err(p) = guarded(move || parse_filter(&l, true, opts(f, t, perm)).is_ok()) {
+                    out.fail("parse-panicked", None, json!({"api": "parse_filter", "line": s, "format": fc.to_string(), "rule_types": tc.to_string(), "permissions": perm, "panic": p}));
+                }
+                out.bump("total:parse_filter_calls");
+            }
+        }
+    }
+    let l = s.to_string();
+    if let Err(p) = guarded(move || NetworkFilter::parse(&l, true, Default::default()).is_ok()) {
+        out.fail("parse-panicked", None, json!({"api": "NetworkFilter::parse", "line": s, "panic": p}));
+    }
+    let l = s.to_string();
+    if let Err(p) = guarded(move || NetworkFilter::parse_hosts_style(&l, true).is_ok()) {
+        out.fail("parse-panicked", None, json!({"api": "NetworkFilter::parse_hosts_style", "line": s, "panic": p}));
+    }
+    for perm in [0u8, 1u8] {
+        let l = s.to_string();
+        if let Err(p) = guarded(move || CosmeticFilter::parse(&l, true, PermissionMask::from_bits(perm)).is_ok()) {
+            out.fail("parse-panicked", None, json!({"api": "CosmeticFilter::parse", "line": s, "permissions": perm, "panic": p}));
+        }
+    }
+    let l = s.to_string();
+    if let Err(p) = guarded(move || adblock::resources::verif_parse_scriptlet_args(&l).is_some()) {
+        out.fail("parse-panicked", None, json!({"api": "parse_scriptlet_args", "line": s, "panic": p}));
+    }
+    let l = s.to_string();
+    if let Err(p) = guarded(move || read_list_metadata(&l).title.is_some()) {
+        out.fail("parse-panicked", None, json!({"api": "read_list_metadata", "text": s, "panic": p}));
+    }
+    out.add("total:other_parser_calls", 6);
+}
+
+fn run_total(seed: u64, n: usize, out: &mut Out) {
+    let mut r = Rng::new(seed ^ 0x4444);
+    let scripts = crate::cosm::script_pool();
+    // bases: real rules from the repository's sample list plus generated lines
+    let mut bases: Vec<String> = vec![];
+    if let Ok(t) = std::fs::read_to_string("/repo/data/slim-list.txt") {
+        let ls: Vec<&str> = t.lines().filter(|l| !l.is_empty() && l.len() < 90).collect();
+        if !ls.is_empty() {
+            for _ in 0..n / 2 {
+                bases.push(ls[r.below(ls.len())].to_string());
+            }
+            out.add("total:real_rule_bases", (n / 2) as u64);
+        }
+    }
+    while bases.len() < n {
+        bases.push(any_line(&mut r, &scripts));
+    }
+    bases.extend(["a.com##+js(a, b\\, c, 'd, e', \"f\\\"g\", `h`)", "a.com,~b.a.com,c.*##.x:style(a: b)", "@@||a.com^$domain=b.com|~c.b.com,redirect=x:5", "a.com##+js(x, /re,x/)", "||a.com^$removeparam=/^x/,domain=\u{e9}.com", "*$csp=script-src 'self' *", "/^https?:\\/\\/x[0-9]+/$match-case"].iter().map(|s| s.to_string()));
+    for b in &bases {
+        total_one(b, out);
+        let cs: Vec<char> = b.chars().collect();
+        // a multi-byte / special character at every offset
+        let ins_set: Vec<&str> = if cs.len() <= 40 { MB.to_vec() } else { (0..6).map(|_| *r.pick(&MB.iter().collect::<Vec<_>>())).collect() };
+        for ins in ins_set {
+            for at in 0..=cs.len() {
+                let s: String = cs[..at].iter().collect::<String>() + ins + &cs[at..].iter().collect::<String>();
+                total_one(&s, out);
+            }
+        }
+        // truncations
+        for at in 0..cs.len() {
+            let s: String = cs[..at].iter().collect();
+            total_one(&s, out);
+        }
+        out.bump("total:bases");
+    }
+    // random byte soup that is valid UTF-8
+    for _ in 0..n * 4 {
+        let k = r.below(24);
+        let s: String = (0..k).map(|_| r.pick(MB).to_string()).collect::<Vec<_>>().join(if r.pct(50) { "" } else { "a" });
+        total_one(&s, out);
+    }
+    // the 1024-byte cut-off inside a multi-byte character, at every phase
+    for pad in 1015..1030 {
+        for mb in ["\u{e9}", "\u{20ac}", "\u{1f600}"] {
+            let text = format!("! {}\n! Title: {}{}\n||x^\n", "x".repeat(pad - 12), mb.repeat(8), "t");
+            let t2 = text.clone();
+            if let Err(p) = guarded(move || read_list_metadata(&t2).title.is_some()) {
+                out.fail("parse-panicked", None, json!({"api": "read_list_metadata", "text": text, "panic": p}));
+            }
+            let t3 = format!("{}{}", "x".repeat(pad), mb.repeat(3));
+            let t4 = t3.clone();
+            if let Err(p) = guarded(move || read_list_metadata(&t4).title.is_some()) {
+                out.fail("parse-panicked", None, json!({"api": "read_list_metadata", "text": t3, "panic": p}));
+            }
+            out.add("total:cutoff_phase_cases", 2);
+        }
+    }
+    out.oracle_case("totality-stream", &json!({"bases": bases.len()}), true);
+}
+
+pub fn run(seed: u64, n: usize, out: &mut Out, tier: &str) {
+    run_parse(seed, n / 2, out);
+    run_lines(seed, n, out);
+    run_meta(seed, n / 8, out);
+    run_lists(seed, n / 6, out);
+    run_total(seed, if tier == "quick" { 60 } else { 1500 }, out);
 }
